@@ -2,6 +2,8 @@
    statement.  An iterator inside a node is (leaf?, count, index); the end iterator of a tree whose root is a leaf is
    (true, count, count).  Before the fix only internal nodes checked `index < count`. *)
 From Coq Require Import Arith Bool Lia.
+(* robustness: a regenerated term that makes a tactic run away fails the proof (prove BROKEN) instead of hanging the build *)
+Set Default Timeout 300.
 
 Definition inc_prefix (leaf : bool) (count idx : nat) : option nat :=
   if leaf then Some (S idx) else if idx <? count then Some (S idx) else None.
